@@ -193,6 +193,9 @@ class ExprMixin(object):
             return [(st, core.tget(obj, int(attr[1:])))]
         if isinstance(obj.ty, Map) and attr == "dom" and self.in_spec:
             return [(st, core.mdom(obj))]
+        if obj.ty is PY:
+            self.notes.append("attribute .%s of a dynamic value: uninterpreted (AttributeError not modelled)" % attr)
+            return [(st, core.ufun("py_attr_" + attr, [obj], PY))]
         if isinstance(obj.ty, U):
             # attribute of an opaque object: uninterpreted function declared by sidecar
             key = (obj.ty.name, attr)
@@ -429,7 +432,10 @@ class ExprMixin(object):
                 raise OutsideSubset("__contains__ must be total")
             return truthy(outs[0][1])
         if c.ty is PY:
-            return core.ufun("py_contains", [c, core.to_py(x)], BOOL).t
+            P = core.py_sort()
+            eo = CTX.func("empty_obj", z3.IntSort(), z3.IntSort())
+            not_empty = z3.And([c.t != P.PObj(eo(z3.IntVal(i))) for i in range(3)] + [c.t != P.PNone])
+            return z3.And(not_empty, core.ufun("py_contains", [c, core.to_py(x)], BOOL).t)
         return core.contains(c, x)
 
     def ex_BinOp(self, e, st):
@@ -874,6 +880,8 @@ def _same_store(a, b):
 def join_ty(a, b):
     if a == b:
         return a
+    if a is NONE and b is PY:
+        return PY
     if a is NONE:
         return b if isinstance(b, Opt) else (Opt(b) if b not in (EMPTY_LIST, EMPTY_DICT, EMPTY_SET, STATIC) else None)
     if b is NONE:
@@ -882,9 +890,9 @@ def join_ty(a, b):
         return a
     if isinstance(b, Opt) and (b.elem == a or a in (EMPTY_LIST, EMPTY_DICT, EMPTY_SET, STATIC)):
         return b
-    if a is PY and b in (INT, BOOL, STR, NONE):
+    if a is PY and (b in (INT, BOOL, STR, NONE, EMPTY_LIST, EMPTY_DICT, EMPTY_SET) or isinstance(b, (Ref, U))):
         return PY
-    if b is PY and a in (INT, BOOL, STR, NONE):
+    if b is PY and (a in (INT, BOOL, STR, NONE, EMPTY_LIST, EMPTY_DICT, EMPTY_SET) or isinstance(a, (Ref, U))):
         return PY
     if isinstance(a, (List, Set, Map)) and b in (EMPTY_LIST, EMPTY_DICT, EMPTY_SET, STATIC):
         return a
